@@ -690,7 +690,10 @@ Definition prog_gen (copy : bool) (e : ep) (variant nargs : nat) : list instr :=
       ++ store_retrieve (T 3) 10 true
       ++ map IReturn [T (12 + F_solution); T (12 + F_objective); T (12 + F_measures); T (12 + F_threshold); T (12 + F_extra); T 17]
   | BestElite =>                                           (* 227-247: the cached dict of _stats_update; variant 1: empty archive, None *)
-      if Nat.eqb variant 0 then [IGetSelf (T 1) F_i6; IReturn (T 1)] else []
+      (* fix FC12d: the property hands out a copy of the cached dict's arrays, not the dict itself *)
+      if Nat.eqb variant 0
+      then (if copy then [IGetSelf (T 1) F_i6; ICopy (T 2) (T 1); IReturn (T 2)] else [IGetSelf (T 1) F_i6; IReturn (T 1)])
+      else []
   | IndexOf =>                                             (* Grid 198, CVT 312, Sliding 310, Proximity 209: np.asarray, then fresh results *)
       [IAsarray 0 0 false]
       ++ match variant with
